@@ -51,7 +51,7 @@ def obligations(tier):
     q = tier == 'quick'
     o = []
     for dec in (0, 1, 2, 3):
-        for bw in ([1, 3, 8, 9] if q else [1, 2, 3, 8, 9, 16]) + ([] if dec in (1, 2) else ([17] if q else [17, 32])):
+        for bw in ([0, 1, 3, 8, 9] if q else [0, 1, 2, 3, 8, 9, 16]) + ([] if dec in (1, 2) else ([17] if q else [17, 32])):
             for n in ([0, 1, 8, 9] if q else [0, 1, 2, 7, 8, 9, 10, 12]):
                 o.append(rle(dec, bw, n))
             o.append(rle(dec, bw))
